@@ -61,9 +61,13 @@ Definition is_xml_name (n : bytes) : bool :=
 (* end-of-line handling of XML 1.0 §2.11 on raw input *)
 Fixpoint norm_eol (s : bytes) : bytes :=
   match s with
-  | 13 :: ((10 :: r) as t) => 10 :: norm_eol r
-  | 13 :: r => 10 :: norm_eol r
-  | c :: r => c :: norm_eol r
+  | c :: r =>
+    if c =? 13 then
+      match r with
+      | d :: r' => if d =? 10 then 10 :: norm_eol r' else 10 :: norm_eol r
+      | [] => [10]
+      end
+    else c :: norm_eol r
   | [] => []
   end.
 
@@ -91,47 +95,50 @@ Fixpoint unesc (s : bytes) (st : ustate) : option bytes :=
   | UPlain =>
     match s with
     | [] => Some []
-    | 38 :: r =>
-      match r with
-      | 108 :: 116 :: 59 :: r' => option_map (cons 60) (unesc r' UPlain)
-      | 103 :: 116 :: 59 :: r' => option_map (cons 62) (unesc r' UPlain)
-      | 97 :: 109 :: 112 :: 59 :: r' => option_map (cons 38) (unesc r' UPlain)
-      | 113 :: 117 :: 111 :: 116 :: 59 :: r' => option_map (cons 34) (unesc r' UPlain)
-      | 97 :: 112 :: 111 :: 115 :: 59 :: r' => option_map (cons 39) (unesc r' UPlain)
-      | 35 :: 120 :: r' => unesc r' (UHex 0 0)
-      | 35 :: r' => unesc r' (UDec 0 0)
-      | _ => None
-      end
-    | 60 :: _ => None
-    | c :: r => option_map (cons c) (unesc r UPlain)
+    | c :: r =>
+      if c =? 38 then
+        match r with
+        | 108 :: 116 :: 59 :: r' => option_map (cons 60) (unesc r' UPlain)
+        | 103 :: 116 :: 59 :: r' => option_map (cons 62) (unesc r' UPlain)
+        | 97 :: 109 :: 112 :: 59 :: r' => option_map (cons 38) (unesc r' UPlain)
+        | 113 :: 117 :: 111 :: 116 :: 59 :: r' => option_map (cons 34) (unesc r' UPlain)
+        | 97 :: 112 :: 111 :: 115 :: 59 :: r' => option_map (cons 39) (unesc r' UPlain)
+        | 35 :: 120 :: r' => unesc r' (UHex 0 0)
+        | 35 :: r' => unesc r' (UDec 0 0)
+        | _ => None
+        end
+      else if c =? 60 then None
+      else option_map (cons c) (unesc r UPlain)
     end
   | UDec code nd =>
     match s with
     | [] => None
-    | 59 :: r =>
-      match nd with
-      | O => None
-      | _ => if is_xml_char_code code then option_map (app (utf8_spec code)) (unesc r UPlain) else None
-      end
     | c :: r =>
-      match dec_digit c with
-      | Some d => if code <? 1114112 then unesc r (UDec (code * 10 + d) (S nd)) else None
-      | None => None
-      end
+      if c =? 59 then
+        match nd with
+        | O => None
+        | _ => if is_xml_char_code code then option_map (app (utf8_spec code)) (unesc r UPlain) else None
+        end
+      else
+        match dec_digit c with
+        | Some d => if code <? 1114112 then unesc r (UDec (code * 10 + d) (S nd)) else None
+        | None => None
+        end
     end
   | UHex code nd =>
     match s with
     | [] => None
-    | 59 :: r =>
-      match nd with
-      | O => None
-      | _ => if is_xml_char_code code then option_map (app (utf8_spec code)) (unesc r UPlain) else None
-      end
     | c :: r =>
-      match hex_digit c with
-      | Some d => if code <? 1114112 then unesc r (UHex (code * 16 + d) (S nd)) else None
-      | None => None
-      end
+      if c =? 59 then
+        match nd with
+        | O => None
+        | _ => if is_xml_char_code code then option_map (app (utf8_spec code)) (unesc r UPlain) else None
+        end
+      else
+        match hex_digit c with
+        | Some d => if code <? 1114112 then unesc r (UHex (code * 16 + d) (S nd)) else None
+        | None => None
+        end
     end
   end.
 
@@ -169,16 +176,24 @@ Definition p_name (s : bytes) : option (bytes * bytes) :=
 (* does "]]>" occur in s ? *)
 Fixpoint has_cdata_end (s : bytes) : bool :=
   match s with
-  | 93 :: ((93 :: 62 :: _) as t) => true
-  | _ :: r => has_cdata_end r
+  | a :: r =>
+    (match r with
+     | b :: c :: _ => (a =? 93) && (b =? 93) && (c =? 62)
+     | _ => false
+     end) || has_cdata_end r
   | [] => false
   end.
 
 (* text up to the first "]]>" and what follows it *)
 Fixpoint span_cdata (s : bytes) : option (bytes * bytes) :=
   match s with
-  | 93 :: 93 :: 62 :: r => Some ([], r)
-  | c :: r => match span_cdata r with Some (a, b) => Some (c :: a, b) | None => None end
+  | a :: r =>
+    match r with
+    | b :: c :: r' =>
+      if (a =? 93) && (b =? 93) && (c =? 62) then Some ([], r')
+      else match span_cdata r with Some (x, y) => Some (a :: x, y) | None => None end
+    | _ => None
+    end
   | [] => None
   end.
 
@@ -196,14 +211,14 @@ Definition p_chardata (s : bytes) : option (bytes * bytes) :=
 Definition p_attvalue (s : bytes) : option (bytes * bytes) :=
   let '(run, rest) := span (fun c => negb (c =? 34)) s in
   match rest with
-  | 34 :: rest' =>
+  | _ :: rest' =>     (* the closing quote (span stopped at it) *)
     if forallb is_xml_byte run then
       match unescape (attr_ws (norm_eol run)) with
       | Some v => Some (v, rest')
       | None => None
       end
     else None
-  | _ => None
+  | [] => None
   end.
 
 Fixpoint bytes_in (n : bytes) (l : list (bytes * bytes)) : bool :=
@@ -219,22 +234,28 @@ Fixpoint p_attrs (n : nat) (s : bytes) (acc : list (bytes * bytes)) : option (li
   | O => None
   | S k =>
     match s with
-    | 62 :: r => Some (rev acc, false, r)
-    | 47 :: 62 :: r => Some (rev acc, true, r)
-    | 32 :: r =>
-      match p_name r with
-      | Some (nm, r1) =>
-        match r1 with
-        | 61 :: 34 :: r2 =>
-          match p_attvalue r2 with
-          | Some (v, r3) => if bytes_in nm acc then None else p_attrs k r3 ((nm, v) :: acc)
+    | [] => None
+    | c :: r =>
+      if c =? 62 then Some (rev acc, false, r)
+      else if c =? 47 then
+        match r with
+        | d :: r' => if d =? 62 then Some (rev acc, true, r') else None
+        | [] => None
+        end
+      else if c =? 32 then
+        match p_name r with
+        | Some (nm, r1) =>
+          match expect [61; 34] r1 with
+          | Some r2 =>
+            match p_attvalue r2 with
+            | Some (v, r3) => if bytes_in nm acc then None else p_attrs k r3 ((nm, v) :: acc)
+            | None => None
+            end
           | None => None
           end
-        | _ => None
+        | None => None
         end
-      | None => None
-      end
-    | _ => None
+      else None
     end
   end.
 
@@ -259,46 +280,52 @@ Fixpoint p_content (fuel : nat) (s : bytes) (acc : list xitem) : rres (list xite
   | S f =>
     match s with
     | [] => RErr
-    | 60 :: 47 :: r => ROk (rev acc, r)                        (* "</" *)
-    | 60 :: 33 :: r =>                                         (* "<!" : only a CDATA section is allowed here *)
-      match expect s_cdata_tail r with
-      | Some r1 =>
-        match span_cdata r1 with
-        | Some (t, r2) => if forallb is_xml_byte t then p_content f r2 (push_text (norm_eol t) acc) else RErr
-        | None => RErr
-        end
-      | None => RErr
-      end
-    | 60 :: r =>
-      match p_name r with
-      | Some (nm, r1) =>
-        match p_attrs (S (List.length r1)) r1 [] with
-        | Some (attrs, true, r2) => p_content f r2 (XE nm attrs [] :: acc)
-        | Some (attrs, false, r2) =>
-          match p_content f r2 [] with
-          | ROk (ch, r3) =>
-            match p_name r3 with
-            | Some (nm', r4) =>
-              if bytes_eqb nm nm' then
-                match skip_ws r4 with
-                | 62 :: r5 => p_content f r5 (XE nm attrs ch :: acc)
-                | _ => RErr
-                end
-              else RErr
+    | c0 :: r0 =>
+      if c0 =? 60 then
+        match r0 with
+        | [] => RErr
+        | c1 :: r =>
+          if c1 =? 47 then ROk (rev acc, r)                         (* "</" *)
+          else if c1 =? 33 then                                     (* "<!" : only a CDATA section is allowed here *)
+            match expect s_cdata_tail r with
+            | Some r1 =>
+              match span_cdata r1 with
+              | Some (t, r2) => if forallb is_xml_byte t then p_content f r2 (push_text (norm_eol t) acc) else RErr
+              | None => RErr
+              end
             | None => RErr
             end
-          | RErr => RErr
-          | RFuel => RFuel
-          end
+          else
+            match p_name r0 with
+            | Some (nm, r1) =>
+              match p_attrs (S (List.length r1)) r1 [] with
+              | Some (attrs, true, r2) => p_content f r2 (XE nm attrs [] :: acc)
+              | Some (attrs, false, r2) =>
+                match p_content f r2 [] with
+                | ROk (ch, r3) =>
+                  match p_name r3 with
+                  | Some (nm', r4) =>
+                    if bytes_eqb nm nm' then
+                      match skip_ws r4 with
+                      | c5 :: r5 => if c5 =? 62 then p_content f r5 (XE nm attrs ch :: acc) else RErr
+                      | [] => RErr
+                      end
+                    else RErr
+                  | None => RErr
+                  end
+                | RErr => RErr
+                | RFuel => RFuel
+                end
+              | None => RErr
+              end
+            | None => RErr
+            end
+        end
+      else
+        match p_chardata s with
+        | Some (t, r) => p_content f r (push_text t acc)
         | None => RErr
         end
-      | None => RErr
-      end
-    | _ =>
-      match p_chardata s with
-      | Some (t, r) => p_content f r (push_text t acc)
-      | None => RErr
-      end
     end
   end.
 
@@ -341,7 +368,7 @@ Definition read_xml (fuel : nat) (s : bytes) : rres xdoc :=
           match expect s_pub_kw s3 with
           | Some s4 =>
             let '(pub, s5) := span not_quote s4 in
-            match s5 with 34 :: s6 => Some (Some pub, s6) | _ => None end
+            match s5 with _ :: s6 => Some (Some pub, s6) | [] => None end
           | None =>
             match expect s_sys_kw s3 with
             | Some s4 => Some (None, s4)
